@@ -21,13 +21,15 @@ type axis struct {
 }
 
 func (a *axis) getIndex(v float64) int {
-	index := int(math.Floor((v-a.start)/a.size)) + 1
-	if index < 0 {
-		index = 0
-	} else if index >= a.bins {
-		index = a.bins - 1
+	// The comparison is done using floats, because the conversion to int
+	// is only defined if the float value fits into an int.
+	index := math.Floor((v-a.start)/a.size) + 1
+	if index >= float64(a.bins) {
+		return a.bins - 1
+	} else if index >= 0 {
+		return int(index)
 	}
-	return index
+	return 0
 }
 
 type bin struct {
